@@ -162,6 +162,18 @@ let () =
         let rs = open_reads (bytes_of_hex hexfile) in
         print_endline (String.concat " " ("r" :: List.map (fun (Rd (o, n)) -> Printf.sprintf "%d:%d" (int_of_z o) (int_of_z n)) rs));
         flush stdout
+      | ["blockvisit"; mangler; n] ->
+        (* the order in which VisitItemsAscendBlockEx delivers the positions 0..n-1 of a collection of n items *)
+        let n = int_of_string n in
+        let l = List.init n (fun i -> nat_of_int i) in
+        let rec rotate = function [] -> [] | x :: xs -> xs @ [x] in
+        let mangle = (match mangler with
+          | "reverse" -> List.rev
+          | "rotate" -> rotate
+          | _ -> (fun x -> x)) in
+        let out = block_visit mangle l in
+        print_endline (String.concat " " ("b" :: List.map (fun x -> string_of_int (int_of_nat x)) out));
+        flush stdout
       | ["quit"] -> exit 0
       | _ -> print_endline ("ERR unknown request: " ^ line); flush stdout
     done
